@@ -49,7 +49,7 @@ fn c15_alphabet(cfg: &NodeCfg) -> Vec<Op> {
         Op::SetMaxDefault,
         Op::Restart,
         // traffic to another topic of the same stream: the limit is the topic's, not the stream's
-        Op::SendOther(5),
+        Op::SendOther(10),
     ]
 }
 
